@@ -136,8 +136,9 @@ func goType(te TE, inSub bool) string {
 }
 
 func goLiteral(sqlLit string) string {
-	if strings.HasPrefix(sqlLit, "'") {
-		return fmt.Sprintf("%q", strings.Trim(sqlLit, "'"))
+	if strings.HasPrefix(sqlLit, "'") && strings.HasSuffix(sqlLit, "'") && len(sqlLit) >= 2 {
+		// the value of a standard SQL string literal: outer quotes off, doubled quotes undone, backslashes literal
+		return fmt.Sprintf("%q", strings.ReplaceAll(sqlLit[1:len(sqlLit)-1], "''", "'"))
 	}
 	return sqlLit
 }
